@@ -18,7 +18,7 @@ ASSUMPTIONS = [
     "T2 is the evidence for the statement: strings over a 15-character alphabet (ASCII, markup, Latin-1 incl. the characters whose Latin-1 bytes look like BOMs, CJK, astral, U+FEFF, lone surrogates, NUL, newline) up to length 2 (quick) / 3 (thorough), 7 content types x 8 charsets, bodies with in-body declarations",
 ]
 MSG = "mitmproxy.http:Message"
-CT_CASES = {"absent": None, "html_latin1": b"text/html; charset=latin-1", "unparsable": b"garbage"}
+CT_CASES = {"absent": None, "html_latin1": b"text/html; charset=latin-1", "unparsable": b"garbage", "param_name_mixed_case": b"text/plain; Charset=latin-1"}
 
 
 def hfields(vc, msg):
@@ -88,9 +88,14 @@ def s_set_text(vc):
     else:
         # not representable: UTF-8 with surrogateescape, and the declared charset says so
         vc.ensure("fallback.content_is_utf8_surrogateescape", vc.eq(sets[0][1], enc_utf8_se(vc, text)) if sets else False)
-        want = {"absent": b"text/plain; charset=utf-8", "html_latin1": b"text/html; charset=utf-8", "unparsable": b"text/plain; charset=utf-8"}[ct]
+        want = {"absent": b"text/plain; charset=utf-8", "html_latin1": b"text/html; charset=utf-8", "unparsable": b"text/plain; charset=utf-8"}.get(ct)
         cts = [f for f in post if f[0].lower() == b"content-type"]
-        vc.ensure("fallback.charset_declared_utf8_type_kept", len(cts) == 1 and cts[0][1] == want)
+        vc.ensure("fallback.charset_declared_utf8_type_kept", len(cts) == 1 and (want is None or cts[0][1] == want))
+        # the declaration must be one the reader honours: the charset parameter as the (real) header parser reports it
+        from mitmproxy.net.http import headers as _H
+        parsed = _H.parse_content_type(cts[0][1].decode()) if len(cts) == 1 else None
+        vc.ensure("fallback.reader_finds_charset_utf8", parsed is not None and parsed[2].get("charset") == "utf-8")
+        vc.ensure("fallback.media_type_kept", parsed is not None and (parsed[0], parsed[1]) == {"absent": ("text", "plain"), "html_latin1": ("text", "html"), "unparsable": ("text", "plain"), "param_name_mixed_case": ("text", "plain")}[ct])
         vc.ensure("fallback.other_headers_untouched", [f for f in post if f[0].lower() != b"content-type"] == [[b"X-First", b"1"]])
 
 
@@ -192,11 +197,19 @@ def bounded(tier, seed):
         except UnicodeError:
             return False
 
+    hdrs = []
     for ct in TYPES:
         for cs in CHARSETS:
             if ct is None and cs is not None:
                 continue
-            h = None if ct is None else (ct if cs is None else f"{ct}; charset={cs}")
+            hdrs.append((None if ct is None else (ct if cs is None else f"{ct}; charset={cs}"), ct, cs))
+    # parameter names are case-insensitive (RFC 9110 5.6.6); extra parameters; other media types without a utf-8 default
+    hdrs += [("text/plain; Charset=latin-1", "text/plain", "latin-1"), ("text/plain; CHARSET=ascii", "text/plain", "ascii"),
+             ("text/csv; Charset=latin-1", "text/csv", "latin-1"), ("text/plain; format=flowed; charset=latin-1", "text/plain", "latin-1"),
+             ("application/x-www-form-urlencoded; Charset=ascii", "application/x-www-form-urlencoded", "ascii"),
+             ("application/xhtml+xml; charset=latin-1", "text/html", "latin-1")]
+    if True:
+        for h, ct, cs in hdrs:
             bodies = [(s, False) for s in strs] + [(d + t, True) for d in DECLS.get(ct, []) for t in ["", "a", "é", "日", "😀", "ÿþ"]]
             for s, declared in bodies:
                 m = tutils.tresp()
@@ -214,7 +227,8 @@ def bounded(tier, seed):
                 after = m.headers.get("content-type")
                 rep = representable(s, cs)
                 if rep is False and "charset=utf-8" not in (after or ""):
-                    b.fail("text.charset_updated_when_unrepresentable", inp, f"content-type {after!r}")
+                    odd_case = h is not None and "charset=" in h.lower() and "charset=" not in h
+                    b.fail("text.charset_parameter_name_matched_case_sensitively[KF-C32-6]" if odd_case else "text.charset_updated_when_unrepresentable", inp, f"content-type {after!r}")
                 if rep is True and after != h:
                     b.fail("text.header_untouched_when_representable", inp, f"content-type {after!r}")
                 try:
@@ -231,8 +245,10 @@ def bounded(tier, seed):
                     name = "text.leading_bom_character_lost[KF-C32-1]"
                 elif err is None and g == "﻿" + s and (cs or "").lower() in ("utf-16", "utf-32"):
                     name = "text.bom_codec_reads_back_extra_bom[KF-C32-2]"
-                elif declared and ct in DECLS:
+                elif declared and ct in DECLS and cs is None:
                     name = "text.in_body_declaration_overrides_codec_used_for_writing[KF-C32-5]"
+                elif declared:
+                    name = "text.header_charset_wins_over_in_body_declaration"
                 elif raw is not None and raw.startswith(BOMS) and not s.startswith("﻿"):
                     name = "text.body_bytes_look_like_a_bom[KF-C32-4]"
                 else:
